@@ -123,8 +123,13 @@ func Intersect(ctx *expr.Context, input system.Collection, args ...expr.Expressi
 	for _, i := range input {
 		for _, c := range argValues {
 			if checkEquality(i, c) {
-				v, _ := system.From(c)
-				result = append(result, v)
+				// complex elements have no System value: keep the element itself
+				// rather than the nil that a failed conversion yields
+				if v, err := system.From(c); err == nil {
+					result = append(result, v)
+				} else {
+					result = append(result, i)
+				}
 			}
 		}
 	}
